@@ -3,12 +3,19 @@
 use crate::keyring::{EncodedSk, Keyring};
 use kestrel_crypto::{PrivateKey, PublicKey};
 use std::ffi::OsString;
-use std::io::{Read, Write};
-use std::os::unix::process::{CommandExt, ExitStatusExt};
+use std::os::unix::process::ExitStatusExt;
 use std::path::{Path, PathBuf};
 use std::process::{Command, Stdio};
 use std::sync::atomic::{AtomicU64, Ordering};
 
+/// Scratch space for per-case directories: a memory-backed file system when there is one (creating and
+/// removing thousands of small files per second on a journalling file system serialises the workers).
+pub fn scratch_root() -> PathBuf {
+    if let Ok(p) = std::env::var("KVERIF_TMP") { return PathBuf::from(p); }
+    let shm = Path::new("/dev/shm");
+    if shm.is_dir() && std::fs::metadata(shm).map(|m| !m.permissions().readonly()).unwrap_or(false) { shm.to_path_buf() } else { std::env::temp_dir() }
+}
+const SETSID: &str = "/usr/bin/setsid";
 pub fn kestrel_bin() -> PathBuf { PathBuf::from(std::env::var("KESTREL_BIN").unwrap_or_else(|_| "/verif/target/release/kestrel".into())) }
 
 #[derive(Clone, Debug)]
@@ -27,36 +34,42 @@ impl Run {
 pub fn args(a: &[&str]) -> Vec<OsString> { a.iter().map(OsString::from).collect() }
 
 pub fn run(c: &Cmd) -> Run {
+    // kverif detaches itself from any controlling terminal at start-up (see `detach_from_terminal`), so the
+    // children inherit a session without one and a password prompt fails instead of blocking. No pre_exec
+    // hook: std then spawns with posix_spawn/vfork. stdin/stdout/stderr go through files in a private
+    // scratch directory (no pipes, no reader threads), which keeps 16 workers from contending on the
+    // parent's address-space lock.
+    static SEQ: AtomicU64 = AtomicU64::new(0);
+    let io = scratch_root().join(format!("kverif-io-{}-{}", std::process::id(), SEQ.fetch_add(1, Ordering::Relaxed)));
+    let _ = std::fs::create_dir_all(&io);
     let mut cmd = Command::new(kestrel_bin());
     cmd.args(&c.args).env_clear().current_dir(&c.cwd);
     for (k, v) in &c.env { cmd.env(k, v); }
-    unsafe { cmd.pre_exec(|| { libc::setsid(); Ok(()) }); }
-    match &c.stdin { In::Null => { cmd.stdin(Stdio::null()); } In::Bytes(_) => { cmd.stdin(Stdio::piped()); } In::File(p) => { cmd.stdin(std::fs::File::open(p).map(Stdio::from).unwrap_or_else(|_| Stdio::null())); } In::Closed => { cmd.stdin(Stdio::piped()); } }
+    match &c.stdin {
+        In::Null | In::Closed => { cmd.stdin(Stdio::null()); }
+        In::Bytes(b) => { let p = io.join("stdin"); let _ = std::fs::write(&p, b); cmd.stdin(std::fs::File::open(&p).map(Stdio::from).unwrap_or_else(|_| Stdio::null())); }
+        In::File(p) => { cmd.stdin(std::fs::File::open(p).map(Stdio::from).unwrap_or_else(|_| Stdio::null())); }
+    }
     let mut closed_reader = None;
     match &c.stdout {
-        Out::Capture => { cmd.stdout(Stdio::piped()); }
+        Out::Capture => { cmd.stdout(std::fs::File::create(io.join("stdout")).map(Stdio::from).unwrap_or_else(|_| Stdio::null())); }
         Out::File(p) => { cmd.stdout(std::fs::File::create(p).map(Stdio::from).unwrap_or_else(|_| Stdio::null())); }
         Out::DevFull => { cmd.stdout(std::fs::OpenOptions::new().write(true).open("/dev/full").map(Stdio::from).unwrap_or_else(|_| Stdio::null())); }
         Out::Null => { cmd.stdout(Stdio::null()); }
         Out::ClosedPipe => { let mut fds = [0i32; 2]; unsafe { libc::pipe2(fds.as_mut_ptr(), libc::O_CLOEXEC); } closed_reader = Some(fds[0]); cmd.stdout(unsafe { <Stdio as std::os::fd::FromRawFd>::from_raw_fd(fds[1]) }); }
     }
-    cmd.stderr(Stdio::piped());
-    let mut child = match cmd.spawn() { Ok(c) => c, Err(e) => return Run { code: None, signal: None, stdout: vec![], stderr: format!("spawn failed: {}", e).into_bytes(), timed_out: false } };
+    cmd.stderr(std::fs::File::create(io.join("stderr")).map(Stdio::from).unwrap_or_else(|_| Stdio::null()));
+    let mut child = match cmd.spawn() { Ok(c) => c, Err(e) => { let _ = std::fs::remove_dir_all(&io); return Run { code: None, signal: None, stdout: vec![], stderr: format!("spawn failed: {}", e).into_bytes(), timed_out: false } } };
+    drop(cmd); // closes the parent's copy of the write end of a ClosedPipe
     if let Some(fd) = closed_reader { unsafe { libc::close(fd); } }
-    let stdin = child.stdin.take();
-    let feeder = match (&c.stdin, stdin) { (In::Bytes(b), Some(mut si)) => { let b = b.clone(); Some(std::thread::spawn(move || { let _ = si.write_all(&b); })) } (In::Closed, Some(si)) => { drop(si); None } _ => None };
-    let so = child.stdout.take(); let se = child.stderr.take();
-    let t_out = so.map(|mut s| std::thread::spawn(move || { let mut v = Vec::new(); let _ = s.read_to_end(&mut v); v }));
-    let t_err = se.map(|mut s| std::thread::spawn(move || { let mut v = Vec::new(); let _ = s.read_to_end(&mut v); v }));
-    let start = std::time::Instant::now(); let mut timed_out = false;
-    let status = loop {
-        match child.try_wait() { Ok(Some(st)) => break Some(st), Ok(None) => {}, Err(_) => break None }
-        if start.elapsed().as_millis() as u64 > c.timeout_ms { timed_out = true; let _ = child.kill(); break child.wait().ok(); }
-        std::thread::sleep(std::time::Duration::from_micros(if start.elapsed().as_millis() < 20 { 200 } else { 2000 }));
-    };
-    if let Some(f) = feeder { let _ = f.join(); }
-    let stdout = t_out.map(|t| t.join().unwrap_or_default()).unwrap_or_default();
-    let stderr = t_err.map(|t| t.join().unwrap_or_default()).unwrap_or_default();
+    // blocking wait; a shared watchdog thread kills children that outlive their deadline
+    let pid = child.id(); let deadline = std::time::Instant::now() + std::time::Duration::from_millis(c.timeout_ms);
+    watchdog_add(pid, deadline);
+    let status = child.wait().ok();
+    let timed_out = watchdog_remove(pid);
+    let stdout = if c.stdout == Out::Capture { std::fs::read(io.join("stdout")).unwrap_or_default() } else { vec![] };
+    let stderr = std::fs::read(io.join("stderr")).unwrap_or_default();
+    let _ = std::fs::remove_dir_all(&io);
     Run { code: status.and_then(|s| s.code()), signal: status.and_then(|s| s.signal()), stdout, stderr, timed_out }
 }
 
@@ -65,7 +78,7 @@ static DIR_SEQ: AtomicU64 = AtomicU64::new(0);
 pub struct Sandbox { pub dir: PathBuf }
 impl Sandbox {
     pub fn new() -> Sandbox {
-        let d = std::env::temp_dir().join(format!("kverif-{}-{}", std::process::id(), DIR_SEQ.fetch_add(1, Ordering::Relaxed)));
+        let d = scratch_root().join(format!("kverif-{}-{}", std::process::id(), DIR_SEQ.fetch_add(1, Ordering::Relaxed)));
         let _ = std::fs::remove_dir_all(&d); std::fs::create_dir_all(&d).expect("temp dir"); Sandbox { dir: d }
     }
     pub fn path(&self, name: &str) -> PathBuf { self.dir.join(name) }
@@ -101,3 +114,27 @@ pub fn keyring_text(entries: &[(&CliIdent, bool)]) -> String {
     s
 }
 pub fn exists(p: &Path) -> bool { std::fs::symlink_metadata(p).is_ok() }
+
+static WATCHED: std::sync::Mutex<Vec<(u32, std::time::Instant, bool)>> = std::sync::Mutex::new(Vec::new());
+static WATCHDOG: std::sync::Once = std::sync::Once::new();
+fn watchdog_add(pid: u32, deadline: std::time::Instant) {
+    WATCHDOG.call_once(|| { std::thread::spawn(|| loop {
+        std::thread::sleep(std::time::Duration::from_millis(100));
+        let now = std::time::Instant::now();
+        for e in WATCHED.lock().unwrap().iter_mut() { if !e.2 && now > e.1 { e.2 = true; unsafe { libc::kill(e.0 as i32, libc::SIGKILL); } } }
+    }); });
+    WATCHED.lock().unwrap().push((pid, deadline, false));
+}
+/// Returns true if the watchdog had to kill the process.
+fn watchdog_remove(pid: u32) -> bool { let mut w = WATCHED.lock().unwrap(); if let Some(i) = w.iter().position(|e| e.0 == pid) { w.swap_remove(i).2 } else { false } }
+
+/// If this process has a controlling terminal, re-execute it in a new session (once), so that neither it nor
+/// the CLI processes it starts can ever block on a terminal prompt.
+pub fn detach_from_terminal() {
+    if std::env::var("KVERIF_DETACHED").is_ok() { return; }
+    if std::fs::OpenOptions::new().read(true).write(true).open("/dev/tty").is_err() { return; }
+    if !Path::new(SETSID).exists() { unsafe { libc::setsid(); } return; }
+    let args: Vec<OsString> = std::env::args_os().collect();
+    let st = Command::new(SETSID).arg("--wait").args(&args).env("KVERIF_DETACHED", "1").status();
+    match st { Ok(s) => std::process::exit(s.code().unwrap_or(2)), Err(_) => {} }
+}
